@@ -9,7 +9,7 @@
     (at <fn|-> (i <block> <index>) | (e <head> <tail>) | (b <block>))
     (steps <n>)
     (watch (<addr> <len>)…)                        windows printed at the end of the run
-  Answer: per executed step `<loc> <changed scalars|-> <memory window of a store|->`, joined by ` ; `; the run
+  Answer: per executed step `<loc> <changed scalars|-> <memory window of a store | l<address of a load> | ->`, joined by ` ; `; the run
   ends with `err:<kind>` / `panic` / `lift` (branch target outside the program) / `edge64` (access touching
   the last byte of the address space: outside the compared domain) or, after n steps, with
   `end <watch windows>`.
@@ -82,6 +82,10 @@ def storeWindow (ev : State → Expr → Res Const) (pre post : State) : Op → 
       let start := a - 2
       windowStr post.mem start (a - start + v.bits / 8 + 2)
     | _, _ => "-"
+  | .load _ index =>
+    match ev pre index with
+    | .ok i => "l" ++ Fil.hex i.val
+    | _ => "-"
   | _ => "-"
 
 def opAt (P : Program) (l : Loc) : Op :=
